@@ -145,9 +145,14 @@ func answerFor(body []byte) (uid uint64, kind string, result []byte, ok bool) {
 			return 0, "", nil, false
 		}
 		uid = uint64(u32le(body[4:]))
-		r := append(le32(0x1cb5c415), le32(2)...)
+		n := bigLen(uid)
+		r := append(le32(0x1cb5c415), le32(uint32(2+n))...)
 		r = append(r, le64(uid)...)
-		r = append(r, le64(stamp(uid))...)
+		st := stamp(uid)
+		r = append(r, le64(st)...)
+		for i := 0; i < n; i++ { // one request in sixteen has a result of several hundred KiB
+			r = append(r, le64(bigElem(st, i))...)
+		}
 		return uid, "vector-long", r, true
 	case 0x05a954c0:
 		if len(body) < 8 {
@@ -165,6 +170,16 @@ func answerFor(body []byte) (uid uint64, kind string, result []byte, ok bool) {
 	}
 	return 0, "", nil, false
 }
+
+// bigLen: how many extra elements the vector-long answer for uid carries (0 for fifteen uids in sixteen).
+func bigLen(uid uint64) int {
+	if uid%16 != 7 {
+		return 0
+	}
+	return 30000 + int(uid>>4)%40000
+}
+
+func bigElem(st uint64, i int) uint64 { return core.Hash64("big", st, uint64(i)) }
 
 func tlString(b []byte) (string, bool) {
 	if len(b) < 1 {
